@@ -117,9 +117,9 @@ add("C16", 'xenum+seqx', 'model_checking',
     'DESIGN.md 4 C16, 9.2b')
 
 add("C17", 'vsched', 'model_checking',
-    'stateless schedule exploration with a pre-emption bound (quick: bound 1, coarse granularity; thorough: fine granularity bound 1, then coarse granularity bound 2) of 37 scenarios (2-3 goroutines, one call each - in one scenario one, four and four calls - on one shared issuer, attester or key: freshly constructed, with a sequential history of rejected and served requests, built over a key object its owner has already used or assembled from raw numbers; one blinding key shared by all calls) over pat-go sources instrumented with scheduling points, executed under a cooperative scheduler that is invisible to the Go race detector, so that every explored schedule is also checked for data races by happens-before analysis',
+    'stateless schedule exploration with a pre-emption bound (quick: bound 1, coarse granularity; thorough: fine granularity bound 1, then coarse granularity bound 2) of 37 scenarios (2-3 goroutines, one call each - in one scenario one, four and four calls - on one shared issuer, attester or key: freshly constructed, with a sequential history of rejected and served requests, built over a key object its owner has already used or assembled from raw numbers; one blinding key shared by all calls) over pat-go sources instrumented with scheduling points, every execution in a harness process of its own, under a cooperative scheduler that is invisible to the Go race detector, so that every explored schedule is also checked for data races by happens-before analysis',
     "For each of >10^4 distinct schedules per run: no race report on any memory (pat-go, circl, math/big, standard library), every call's result is one a sequential call could have produced (responses finalize to valid tokens, key ids / blinded keys / signatures equal the sequential ones, forged tokens rejected), no deadlock, no panic. Finds data races (lazy initialisation, in-place normalisation, memoisation, shared scratch buffers, counters, self-reordering lists) and race-free atomicity bugs (correctly locked check-then-act, CAS flag instead of sync.Once).",
-    "Dependencies are atomic steps of a schedule (their races are still detected); coarse granularity = statements in tokens/ and in every function that mentions a package-level variable, function entries elsewhere; the race detector's bounded shadow history means a given race is reported in some schedules only.",
+    "Dependencies are atomic steps of a schedule (their races are still detected); coarse granularity = statements in tokens/ and in every function that mentions a package-level variable, function entries elsewhere; the race detector's bounded shadow history means a given race is reported in some schedules only; a scenario whose default schedule gives two different traces is explored without a coverage claim.",
     'DESIGN.md 3.4, 4 C17, 9.2')
 
 NOT_APPLICABLE = {}
